@@ -108,10 +108,12 @@ class Cell:
         self.payload_name = payload or rng.choice(PAYLOAD_NAMES)
         self.header_flavour = rng.choice(["plain", "plain", "non-ascii", "rich", "empty-strings"])
         self.decoy = rng.random() < 0.5   # a second key of another type in a key set of one
+        self.payload_as = "str" if rng.random() < 0.25 else "bytes"
+        self.token_as = "bytes" if rng.random() < 0.3 else "str"    # compact tokens are accepted as str and as bytes
 
     def desc(self):
         return {"alg": self.alg, "form": self.form, "b64": self.b64, "placement": self.placement, "key_given": self.key_given,
-                "sign_rep": self.sign_rep, "verify_rep": self.verify_rep, "payload": self.payload_name, "header": self.header_flavour, "decoy": self.decoy}
+                "sign_rep": self.sign_rep, "verify_rep": self.verify_rep, "payload": self.payload_name, "header": self.header_flavour, "decoy": self.decoy, "payload_as": self.payload_as, "token_as": self.token_as}
 
 
 class Produced:
@@ -181,6 +183,13 @@ def produce(cell: Cell, rng):
     given = copy.deepcopy(members)
     sign_key = giver(skeys)
     detached = None
+    octets = payload
+    if cell.payload_as == "str":
+        # the documented type is bytes | str: text is handed over as str when the payload is text
+        try:
+            payload = octets.decode("utf-8")
+        except UnicodeDecodeError:
+            payload = octets
     if cell.form == "compact":
         hdr = copy.deepcopy(members[0]["protected"])
         if cell.b64 == "absent":
@@ -196,7 +205,7 @@ def produce(cell: Cell, rng):
     else:
         o = call(j.jws.serialize_json, copy.deepcopy(members), payload, sign_key, algorithms=allow)
     p = Produced()
-    p.cell, p.outcome, p.payload, p.members, p.algs, p.kids, p.allow = cell, o, payload, given, algs, kids, allow
+    p.cell, p.outcome, p.payload, p.members, p.algs, p.kids, p.allow = cell, o, octets, given, algs, kids, allow
     p.skeys, p.vkeys, p.jwks, p.used_set, p.giver = skeys, vkeys, jwks, used_set, giver
     p.token = o.value if o.ok else None
     return p
@@ -209,10 +218,16 @@ def consume(p: Produced, token=None):
     tok = p.token if token is None else token
     vkey = p.giver(p.vkeys)
     if cell.form == "compact":
+        arg = tok.encode("utf-8") if (cell.token_as == "bytes" and isinstance(tok, str)) else tok
         if cell.b64 == "absent":
-            return call(j.jws.deserialize_compact, tok, vkey, algorithms=p.allow)
+            return call(j.jws.deserialize_compact, arg, vkey, algorithms=p.allow)
         detached = p.payload if tok.split(".")[1] == "" else None
-        return call(j.rfc7797.deserialize_compact, tok, vkey, payload=detached, algorithms=p.allow)
+        if detached is not None and cell.payload_as == "str":
+            try:
+                detached = detached.decode("utf-8")
+            except UnicodeDecodeError:
+                pass
+        return call(j.rfc7797.deserialize_compact, arg, vkey, payload=detached, algorithms=p.allow)
     if cell.b64 == "absent":
         return call(j.jws.deserialize_json, copy.deepcopy(tok), vkey, algorithms=p.allow)
     return call(j.rfc7797.deserialize_json, copy.deepcopy(tok), vkey, algorithms=p.allow)
